@@ -276,8 +276,14 @@ func (c *CheckCtx) runSeq(scs []*Scenario) error {
 		return err
 	}
 	a := newAbsCtx(c.Sc.Root, d.GoJSON)
-	var all []map[string]any
 	byH := map[string]*Scenario{}
+	// chunks of whole histories are validated by independent TLC processes in parallel
+	type chunk struct {
+		events []map[string]any
+		n      int
+	}
+	var chunks []*chunk
+	cur := &chunk{}
 	for _, r := range runs {
 		if r.Err != nil {
 			return r.Err
@@ -286,43 +292,66 @@ func (c *CheckCtx) runSeq(scs []*Scenario) error {
 		if err != nil {
 			return err
 		}
-		all = append(all, evs...)
 		byH[r.Sc.ID] = r.Sc
+		cur.events = append(cur.events, evs...)
+		cur.n++
+		if len(cur.events) >= 1200 {
+			chunks = append(chunks, cur)
+			cur = &chunk{}
+		}
 	}
-	v, err := validateTrace(c.Sc, "TraceSeq", all)
-	if err != nil {
+	if cur.n > 0 {
+		chunks = append(chunks, cur)
+	}
+	verdicts := make([]*TraceVerdict, len(chunks))
+	tw := c.Workers / 2
+	if tw < 1 {
+		tw = 1
+	}
+	if err := parallelDo(len(chunks), tw, func(i int) error {
+		v, err := validateTrace(c.Sc, "TraceSeq", chunks[i].events)
+		verdicts[i] = v
+		return err
+	}); err != nil {
 		return err
 	}
 	c.Validated += len(scs)
-	c.Evaluations += v.Stats["calls"] + v.Stats["cleans"]
-	c.addStats(v.Stats)
-	for _, dr := range v.Drift {
-		c.Drifts = append(c.Drifts, fmt.Sprintf("action=%s (e.g. history %s event %d %s)", dr.Action, dr.H, dr.L, dr.Path))
-	}
 	other := map[string]int{}
-	for i := range v.Bad {
-		m := v.Bad[i]
-		ev := all[m.L-1]
-		sc := byH[m.H]
-		props := propsOfMismatch(m, ev)
-		mine := false
-		for _, p := range props {
-			if p == c.Prop {
-				mine = true
+	for ci, v := range verdicts {
+		all := chunks[ci].events
+		c.Evaluations += v.Stats["calls"] + v.Stats["cleans"]
+		c.addStats(v.Stats)
+		for _, dr := range v.Drift {
+			c.Drifts = append(c.Drifts, fmt.Sprintf("action=%s (e.g. history %s %s)", dr.Action, dr.H, dr.Path))
+		}
+		for i := range v.Bad {
+			m := v.Bad[i]
+			ev := all[m.L-1]
+			sc := byH[m.H]
+			props := propsOfMismatch(m, ev)
+			mine := false
+			for _, p := range props {
+				if p == c.Prop {
+					mine = true
+				}
 			}
-		}
-		if !mine {
-			other[strings.Join(props, ",")+":"+m.Check]++
-			continue
-		}
-		what := fmt.Sprintf("%s: %s", describeMismatch(m, ev), scenarioBrief(sc))
-		if id := matchKnown(c.Prop, &m, ev, sc); id != "" {
-			if _, ok := c.KnownHit[id]; !ok {
-				c.KnownHit[id] = what
+			if !mine {
+				k := strings.Join(props, ",") + ":" + m.Check + " sig=" + strings.Join(candidateSignatures(&m, ev, sc), "+")
+				if other[k] == 0 && os.Getenv("VERIF_VERBOSE") != "" {
+					fmt.Println("  e.g.", describeMismatch(m, ev), scenarioBrief(sc))
+				}
+				other[k]++
+				continue
 			}
-			continue
+			what := fmt.Sprintf("%s: %s", describeMismatch(m, ev), scenarioBrief(sc))
+			if id := matchKnown(c.Prop, &m, ev, sc); id != "" {
+				if _, ok := c.KnownHit[id]; !ok {
+					c.KnownHit[id] = what
+				}
+				continue
+			}
+			c.Violations = append(c.Violations, &Violation{Prop: c.Prop, What: what, Mismatch: &m, Event: slimEvent(ev), Scenario: sc, Kind: "seq"})
 		}
-		c.Violations = append(c.Violations, &Violation{Prop: c.Prop, What: what, Mismatch: &m, Event: slimEvent(ev), Scenario: sc, Kind: "seq"})
 	}
 	for k, n := range other {
 		c.note("%d mismatch(es) attributed to other properties [%s] seen while checking %s", n, k, c.Prop)
